@@ -325,6 +325,90 @@ def resolve_fields(j):
     return {('%s.%s' % (a, k)): v for a, mm in agg.items() for k, v in mm.items()}
 
 
+KANAL_GENERIC = re.compile(r"(?:Sender|Receiver|AsyncSender|AsyncReceiver|ChannelInternal|Signal|SignalTerminator|KanalPtr|SendFuture|ReceiveFuture|ReceiveStream)<(?:'[a-z_0-9]+, ?)?([A-Za-z_][A-Za-z0-9_]*)>")
+
+
+def _rename_ident(x, old, new, skip=('at', 'span', 'val', 'dbg')):
+    pat = re.compile(r'(?<![A-Za-z0-9_])%s(?![A-Za-z0-9_])' % re.escape(old))
+
+    def walk(v, key=None):
+        if isinstance(v, str):
+            return pat.sub(new, v) if key not in skip else v
+        if isinstance(v, list):
+            return [walk(i, key) for i in v]
+        if isinstance(v, dict):
+            return {k: walk(i, k) for k, i in v.items()}
+        return v
+    return walk(x)
+
+
+def normalise_generics(j):
+    """the message type parameter is called `T` in everything the rules match on; an impl block or struct that calls it
+    `M` / `Msg` is renamed (the name of a type parameter is not observable)"""
+    keymap = {}
+
+    def payload_param(gen, blob):
+        if not gen or 'T' in gen:
+            return None
+        for m in KANAL_GENERIC.finditer(blob):
+            if m.group(1) in gen:
+                return m.group(1)
+        m = re.search(r"\*(?:mut|const) ([A-Za-z_][A-Za-z0-9_]*)", blob)
+        if m and m.group(1) in gen:
+            return m.group(1)
+        return gen[0] if len(gen) == 1 else None
+
+    nb = []
+    for b in j['bodies']:
+        gen = b.get('generics') or []
+        blob = ' '.join([b.get('key', ''), b.get('sig', '') or '', b.get('impl_self', '') or ''] + [l.get('ty', '') for l in b.get('locals', [])[:8]])
+        g = payload_param(gen, blob)
+        if g:
+            ok = b['key']
+            b = _rename_ident(b, g, 'T')
+            if b['key'] != ok:
+                keymap[ok] = b['key']
+        nb.append(b)
+    j['bodies'] = nb
+    na = []
+    for a in j['adts']:
+        gen = a.get('generics') or []
+        blob = ' '.join(f['ty'] for v in a.get('variants', []) for f in v['fields'])
+        g = payload_param(gen, a['name'] + '<' + (gen[0] if gen else '') + '> ' + blob) if gen and 'T' not in gen else None
+        na.append(_rename_ident(a, g, 'T') if g else a)
+    j['adts'] = na
+    ni = []
+    for i in j.get('impls', []):
+        gen = i.get('generics') or []
+        g = payload_param(gen, (i.get('self_ty') or '') + ' ' + (i.get('trait_ref') or ''))
+        ni.append(_rename_ident(i, g, 'T') if g else i)
+    j['impls'] = ni
+    if keymap:
+        def fix(v):
+            if isinstance(v, dict):
+                if 'path' in v and isinstance(v.get('path'), str):
+                    for k in ('path', 'full', 'resolved'):
+                        if isinstance(v.get(k), str):
+                            for o, n in keymap.items():
+                                if v[k] == o or v[k].startswith(o + '::{'):
+                                    v[k] = n + v[k][len(o):]
+                if v.get('k') == 'agg' and v.get('ak') == 'closure' and isinstance(v.get('name'), str):
+                    for o, n in keymap.items():
+                        if v['name'].startswith(o + '::{'):
+                            v['name'] = n + v['name'][len(o):]
+                if isinstance(v.get('constdef'), str):
+                    for o, n in keymap.items():
+                        if v['constdef'] == o or v['constdef'].startswith(o + '::'):
+                            v['constdef'] = n + v['constdef'][len(o):]
+                for x in v.values():
+                    fix(x)
+            elif isinstance(v, list):
+                for x in v:
+                    fix(x)
+        fix(j['bodies'])
+    return keymap
+
+
 FORWARD_ALSO = ['<mutex::RawMutexLock as lock_api::RawMutex>::try_lock', '<mutex::RawMutexLock as lock_api::RawMutex>::unlock']
 
 
@@ -437,6 +521,10 @@ def collapse_forwarders(j):
 
 def resolve(j):
     """returns {actual key: canonical key}; rewrites j in place"""
+    try:
+        normalise_generics(j)
+    except Exception:
+        pass
     try:
         resolve_fields(j)
     except Exception:
